@@ -5,11 +5,12 @@ Sequential layer (`Model/C04.lean`): theorems over ARBITRARY request histories (
 initial state, any configuration). Interleaving layer (`Model/C04_Race.lean`): theorems for EVERY
 schedule `List Bool` of one PUT/TOUCH against one Trash.
 
-Two full-strength statements are FALSE of the current code and are therefore given as
-`…_Full : Prop` + `…_full_fails` (explicit witness) + `…_partial`:
-  * `C04_history_protects`  — finding F04a: Untrash renames an old trashed copy over a fresh block;
-  * `C04_race_overwrite`    — finding F4: WriteBlock takes no flock, so with Serialize off a Trash that
-                              has already examined the old file moves the new block away.
+Both models describe the tree AFTER the two repairs this check led to (both statements were false
+before, with machine-checked witnesses, see notes/C04.md):
+  * fix 7e105eb (finding F4): WriteBlock takes the flock of the file it is about to replace;
+  * fix f7a86a4 (finding F04a): Untrash gives the restored block a current timestamp.
+The former witnesses are kept below as `example`s that now satisfy the property, and in
+corpus/C04/witnesses.txt for the correspondence check.
 -/
 import ArvVerif.Proofs.C04_Trash
 import ArvVerif.Proofs.C04_Race
@@ -19,83 +20,57 @@ namespace ArvVerif.C04
 
 def emptyGhost : Ghost := fun _ => none
 
-/-- Full strength: after ANY history from ANY state, every hash acknowledged (PUT/TOUCH answered 200)
-at time t is, while now < t + TTL, still stored on the server with a timestamp ≥ t. -/
-def C04_history_protects_Full : Prop :=
-  ∀ (c : Cfg) (s : St) (ops : List Op), Prot c (runG c s emptyGhost ops).1 (runG c s emptyGhost ops).2
+/-- Full strength: after ANY history (any number of volumes, any initial contents and ages, any
+TTL / lifetime / BlobTrash setting, any sequence of PUT, TOUCH, GET, DELETE, trash-list items with any
+mtime and mount, untrash, empty-trash sweeps and clock ticks), every hash acknowledged (PUT/TOUCH
+answered 200) at time t is, while now < t + TTL, still stored on the server with a timestamp ≥ t. -/
+theorem C04_history_protects (c : Cfg) (s : St) (ops : List Op) :
+    Prot c (runG c s emptyGhost ops).1 (runG c s emptyGhost ops).2 :=
+  prot_run ops s emptyGhost (fun _ _ hg => by cases hg)
 
-/-! witness of F04a: one writable volume holding h0 with an old timestamp; TTL 10; time 100:
-DELETE h0 (trashed) · PUT h0 (new copy, acknowledged at 100) · untrash h0 (old copy renamed over the
-new one, mtime 0 again) · DELETE h0 (trashed again, at time 100 < 100 + 10). -/
+/-- the conclusion unfolded for one hash, as the property states it -/
+theorem C04_acknowledged_block_survives (c : Cfg) (s : St) (ops : List Op)
+    (h : Hash) (t : Time) (hack : (runG c s emptyGhost ops).2 h = some t)
+    (hlt : (runG c s emptyGhost ops).1.now < t + c.ttl) :
+    ∃ v ∈ (runG c s emptyGhost ops).1.vols, ∃ f, v.blocks h = some f ∧ t ≤ f.mtime :=
+  (C04_history_protects c s ops h t hack).2 hlt
+
+/-- ... and it is served: if no copy on the server was corrupt to begin with (block files and trashed
+files), a hash acknowledged at t is answered 200 by GET at every moment before t + TTL -/
+theorem C04_acknowledged_block_is_readable (c : Cfg) (s : St) (ops : List Op) (hgood : AllGood s)
+    (h : Hash) (t : Time) (hack : (runG c s emptyGhost ops).2 h = some t)
+    (hlt : (runG c s emptyGhost ops).1.now < t + c.ttl) :
+    (step c (runG c s emptyGhost ops).1 (.get h)).2 = .code 200 := by
+  obtain ⟨v, hv, f, hf, _⟩ := C04_acknowledged_block_survives c s ops h t hack hlt
+  have hg := (allGood_runG (c := c) ops s emptyGhost hgood v hv).1 h f hf
+  simp only [step]
+  rw [getStatus_200 _ _ ⟨v, hv, f, hf, hg⟩]
+
+/-! non-vacuity, on the former F04a witness: one writable volume holding h0 with an old timestamp; TTL
+10; time 100: DELETE h0 (trashed) · PUT h0 (acknowledged at 100) · untrash h0 (old copy renamed over the
+new one — now stamped 100) · DELETE h0 (kept: younger than the TTL) · GET 200. -/
 def wCfg : Cfg := { ttl := 10, life := 4, blobTrash := true, conc := 1, res := 1 }
 def wVol : Vol := { id := 0, ro := false, trash := [],
                     blocks := fun h => if h = 0 then some { good := true, mtime := 0 } else none }
 def wSt : St := { vols := [wVol], now := 100, rr := 0 }
-def wOps : List Op := [.delete 0, .put 0 true, .untrash 0, .delete 0]
+def wOps : List Op := [.delete 0, .put 0 true, .untrash 0, .delete 0, .get 0]
 
-theorem C04_history_protects_full_fails : ¬ C04_history_protects_Full := by
-  intro hF
-  have hg : (runG wCfg wSt emptyGhost wOps).2 0 = some (100, true) := by decide
-  have hh := (hF wCfg wSt wOps 0 100 true hg).2 (by decide)
-  obtain ⟨v, hv, f, hf, _⟩ := hh
-  have hm : (runG wCfg wSt emptyGhost wOps).1.vols.map (fun v => v.blocks 0) = [none] := by decide
-  have := List.mem_map_of_mem (f := fun v => v.blocks 0) hv
-  rw [hm, hf] at this
-  simp at this
-
-/-- What holds: over every history in which `untrash` never renames a trashed copy over an existing
-block file (`SafeOps`), the protection invariant holds — for any number of volumes, any initial
-contents and ages, any TTL / lifetime / BlobTrash setting, any interleaving of PUT, TOUCH, GET,
-DELETE, trash-list items (any mtime, any mount), untrash, empty-trash sweeps and clock ticks. -/
-theorem C04_history_protects_partial (c : Cfg) (s : St) (ops : List Op) (hsafe : SafeOps c s ops) :
-    Prot c (runG c s emptyGhost ops).1 (runG c s emptyGhost ops).2 :=
-  prot_run ops s emptyGhost (fun _ _ _ hg => by cases hg) hsafe
-
-/-- in particular: histories without untrash -/
-def NoUntrash : List Op → Prop
-  | [] => True
-  | .untrash _ :: _ => False
-  | _ :: ops => NoUntrash ops
-
-theorem safeOps_of_noUntrash (c : Cfg) : ∀ (ops : List Op) (s : St), NoUntrash ops → SafeOps c s ops := by
-  intro ops
-  induction ops with
-  | nil => intro _ _; trivial
-  | cons op ops ih =>
-    intro s hn
-    cases op with
-    | untrash h => exact absurd hn (by simp [NoUntrash])
-    | _ => exact ⟨trivial, ih _ (by simpa [NoUntrash] using hn)⟩
-
-theorem C04_history_protects_no_untrash (c : Cfg) (s : St) (ops : List Op) (hn : NoUntrash ops) :
-    Prot c (runG c s emptyGhost ops).1 (runG c s emptyGhost ops).2 :=
-  C04_history_protects_partial c s ops (safeOps_of_noUntrash c ops s hn)
-
-/-- the conclusion unfolded for one hash, as the property states it (`p` = acknowledged by a PUT) -/
-theorem C04_acknowledged_block_survives (c : Cfg) (s : St) (ops : List Op) (hsafe : SafeOps c s ops)
-    (h : Hash) (t : Time) (p : Bool) (hack : (runG c s emptyGhost ops).2 h = some (t, p))
-    (hlt : (runG c s emptyGhost ops).1.now < t + c.ttl) :
-    ∃ v ∈ (runG c s emptyGhost ops).1.vols, ∃ f, v.blocks h = some f ∧ t ≤ f.mtime ∧ (p = true → f.good = true) :=
-  (C04_history_protects_partial c s ops hsafe h t p hack).2 hlt
-
-/-- ... and a block whose PUT was acknowledged at t is served (GET 200) at every moment before t + TTL -/
-theorem C04_acknowledged_put_is_readable (c : Cfg) (s : St) (ops : List Op) (hsafe : SafeOps c s ops)
-    (h : Hash) (t : Time) (hack : (runG c s emptyGhost ops).2 h = some (t, true))
-    (hlt : (runG c s emptyGhost ops).1.now < t + c.ttl) :
-    (step c (runG c s emptyGhost ops).1 (.get h)).2 = .code 200 := by
-  obtain ⟨v, hv, f, hf, _, hg⟩ := C04_acknowledged_block_survives c s ops hsafe h t true hack hlt
-  simp only [step]
-  rw [getStatus_200 _ _ ⟨v, hv, f, hf, hg rfl⟩]
-
-/-! non-vacuity: a history with trash, untrash (onto an empty slot), PUT and DELETE satisfies the
-hypothesis, acknowledges h0 at time 100 and the conclusion is about a non-empty server -/
-def okOps : List Op := [.delete 0, .untrash 0, .put 0 true, .tick 3, .delete 0, .emptyTrash, .get 0]
-
-example : SafeOps wCfg wSt okOps := by
-  simp only [okOps, SafeOps, SafeOp, and_true, true_and]
+example : (runG wCfg wSt emptyGhost wOps).2 0 = some 100 := by decide
+example : (runG wCfg wSt emptyGhost wOps).1.now < 100 + wCfg.ttl := by decide
+example : (run wCfg wSt wOps).2 = [.deleted 1 0, .code 200, .code 200, .deleted 1 0, .code 200] := by decide
+example : (runG wCfg wSt emptyGhost wOps).1.vols.map (fun v => v.blocks 0) = [some { good := true, mtime := 100 }] := by
   decide
-example : (runG wCfg wSt emptyGhost okOps).2 0 = some (100, true) := by decide
-example : (runG wCfg wSt emptyGhost okOps).1.now = 103 := by decide
+example : AllGood wSt := by
+  intro v hv
+  simp only [wSt, List.mem_singleton] at hv
+  subst hv
+  refine ⟨fun h f hf => ?_, fun e he => by cases he⟩
+  simp only [wVol] at hf
+  split at hf
+  · cases hf; rfl
+  · cases hf
+def okOps : List Op := [.delete 0, .untrash 0, .put 0 true, .tick 3, .delete 0, .emptyTrash, .get 0]
+example : (runG wCfg wSt emptyGhost okOps).2 0 = some 100 := by decide
 example : (run wCfg wSt okOps).2 = [.deleted 1 0, .code 200, .code 200, .quiet, .deleted 1 0, .quiet, .code 200] := by decide
 
 /-! ## (b) when a trash request may act -/
@@ -201,23 +176,25 @@ theorem ackSafe_prop {s : Race.St} (h : Race.ackSafe s = true) (ha : Acked s) : 
     | inr hg => exact hg
   · cases h
 
-/-- The Volume-interface contract (volume.go) for EVERY interleaving, Serialize on or off, trash
-lifetime zero or not, any age of the copy: never both "Touch succeeded" and "Trash trashed the
-block"; and an acknowledged TOUCH, or an acknowledged PUT that found an intact copy
-(compare-and-touch, falling back to WriteBlock if the touch fails), leaves a copy with a current
-timestamp at the block path at every later point of the execution. -/
-theorem C04_race_closed (c : Race.Cfg) (sched : List Bool) (hc : c.pop = .touch ∨ c.pre = .good) :
+/-- For EVERY interleaving, every configuration (Serialize on or off, trash lifetime zero or not, copy
+absent / intact / corrupt, old or young, TOUCH or PUT, DELETE or trash-list item): an acknowledged
+PUT/TOUCH leaves a copy with a current timestamp (intact, for a PUT) at the block path at every later
+point of the execution. -/
+theorem C04_race_protects (c : Race.Cfg) (sched : List Bool) :
+    Acked (Race.run sched (Race.init c)) → Protected (Race.run sched (Race.init c)) :=
+  ackSafe_prop (Race.run_ackSafe c sched)
+
+/-- The Volume-interface contract (volume.go): never both "Touch succeeded" and "Trash trashed the
+block"; and an acknowledged TOUCH, or an acknowledged PUT that found an intact copy (compare-and-touch,
+falling back to WriteBlock if the touch fails), is protected. -/
+theorem C04_race_closed (c : Race.Cfg) (sched : List Bool) (_hc : c.pop = .touch ∨ c.pre = .good) :
     ¬ ((Race.run sched (Race.init c)).resP = .okTouch ∧ (Race.run sched (Race.init c)).resT = .trashed) ∧
     (Acked (Race.run sched (Race.init c)) → Protected (Race.run sched (Race.init c))) := by
   constructor
   · have h := Race.run_contract c sched
     intro ⟨h1, h2⟩
     simp [Race.contract, h1, h2] at h
-  · have hr : Race.riskyCfg c = false := by
-      cases hc with
-      | inl hp => simp [Race.riskyCfg, hp]
-      | inr hp => simp [Race.riskyCfg, hp]
-    exact ackSafe_prop (Race.run_ackSafe c hr sched)
+  · exact C04_race_protects c sched
 
 /-- the contract half holds in every configuration -/
 theorem C04_race_contract (c : Race.Cfg) (sched : List Bool) :
@@ -226,50 +203,23 @@ theorem C04_race_contract (c : Race.Cfg) (sched : List Bool) :
   intro ⟨h1, h2⟩
   simp [Race.contract, h1, h2] at h
 
-/-- Full strength for a PUT that resolves to WriteBlock (no intact copy on the volume). -/
-def C04_race_overwrite_Full : Prop :=
-  ∀ (c : Race.Cfg) (sched : List Bool), c.pop = .put → c.pre ≠ .good →
-    Acked (Race.run sched (Race.init c)) → Protected (Race.run sched (Race.init c))
+/-- A PUT that resolves to WriteBlock (no intact copy on the volume: absent, or a corrupt copy that is
+overwritten): full strength, Serialize on or off. (False before fix 7e105eb: finding F4.) -/
+theorem C04_race_overwrite (c : Race.Cfg) (sched : List Bool) (_hp : c.pop = .put) (_hpre : c.pre ≠ .good) :
+    Acked (Race.run sched (Race.init c)) → Protected (Race.run sched (Race.init c)) :=
+  C04_race_protects c sched
 
-/-- F4 witness: Serialize off, corrupt old copy. Schedule (true = P, false = T):
-T: v.lock, OpenFile, lockfile, Stat (old ⇒ will trash) · P: stat, lock, Open, read (corrupt),
-MkdirAll, TempFile, lock, Copy, Close, Chtimes, Rename, acknowledged · T: Rename (moves the NEW block). -/
+/-! the former F4 witness: Serialize off, corrupt old copy; schedule (true = P, false = T):
+T: v.lock, OpenFile, lockfile, Stat (old ⇒ will trash) · P: stat, lock, Open, read (corrupt), MkdirAll,
+TempFile, lock, Copy, Close, Chtimes, OpenFile(old) , lockfile(old) — now WAITS for Trash · T: Rename
+(moves the OLD copy) · P: Rename, acknowledged: the new block stays. -/
 def f4Cfg : Race.Cfg := { serialize := false, life0 := false, pre := .corrupt, ageOld := true, pop := .put, top := .del }
-def f4Sched : List Bool := [false, false, false, false] ++ List.replicate 11 true ++ [false]
+def f4Sched : List Bool := [false, false, false, false] ++ List.replicate 13 true ++ [false] ++ [true, true]
 
-theorem C04_race_overwrite_full_fails : ¬ C04_race_overwrite_Full := by
-  intro hF
-  have hack : Acked (Race.run f4Sched (Race.init f4Cfg)) := Or.inr (by decide)
-  obtain ⟨i, hi, _⟩ := hF f4Cfg f4Sched rfl (by decide) hack
-  have : (Race.run f4Sched (Race.init f4Cfg)).blk = none := by decide
-  rw [this] at hi
-  cases hi
-
-/-- What holds: with Serialize on, or when no copy pre-exists on the volume, every interleaving keeps
-an acknowledged PUT's block. -/
-theorem C04_race_overwrite_partial (c : Race.Cfg) (sched : List Bool) (_hp : c.pop = .put)
-    (h : c.serialize = true ∨ c.pre = .absent) :
-    Acked (Race.run sched (Race.init c)) → Protected (Race.run sched (Race.init c)) := by
-  have hr : Race.riskyCfg c = false := by
-    cases h with
-    | inl hs => simp [Race.riskyCfg, hs]
-    | inr ha => simp [Race.riskyCfg, ha]
-  exact ackSafe_prop (Race.run_ackSafe c hr sched)
-
-/-- also when the pre-existing copy is younger than the TTL (Trash never decides to trash) -/
-theorem C04_race_overwrite_young (c : Race.Cfg) (sched : List Bool) (h : c.ageOld = false) :
-    Acked (Race.run sched (Race.init c)) → Protected (Race.run sched (Race.init c)) := by
-  have hr : Race.riskyCfg c = false := by simp [Race.riskyCfg, h]
-  exact ackSafe_prop (Race.run_ackSafe c hr sched)
-
-/-- With the protocol of /verif/fixes/F4.patch (WriteBlock opens the file it is about to replace and
-takes its flock before the rename; `Cfg.patched`) the full statement holds for every configuration and
-every schedule: the proposed patch closes F4 in the model, and introduces no deadlock
-(`C04_race_no_deadlock` covers patched configurations too). -/
-theorem C04_race_overwrite_patched (c : Race.Cfg) (sched : List Bool) (h : c.patched = true) :
-    Acked (Race.run sched (Race.init c)) → Protected (Race.run sched (Race.init c)) := by
-  have hr : Race.riskyCfg c = false := by simp [Race.riskyCfg, h]
-  exact ackSafe_prop (Race.run_ackSafe c hr sched)
+example : Acked (Race.run f4Sched (Race.init f4Cfg)) := Or.inr (by decide)
+example : (Race.run f4Sched (Race.init f4Cfg)).resT = .trashed := by decide
+example : (Race.run f4Sched (Race.init f4Cfg)).blk = some .b := by decide
+example : (Race.run f4Sched (Race.init f4Cfg)).locA = .trash := by decide
 
 /-- no deadlock: after any schedule, 30 fair rounds finish both requests -/
 theorem C04_race_no_deadlock (c : Race.Cfg) (sched : List Bool) :
@@ -291,10 +241,6 @@ example : Acked (Race.run (List.replicate 4 true ++ Race.drain) (Race.init { gCf
 example : Acked (Race.run (f4Sched ++ Race.drain) (Race.init { f4Cfg with serialize := true })) :=
   Or.inr (by decide +kernel)
 example : (Race.run (f4Sched ++ Race.drain) (Race.init { f4Cfg with serialize := true })).resT = .trashed := by
-  decide +kernel
-example : Acked (Race.run (f4Sched ++ Race.drain) (Race.init { f4Cfg with patched := true })) :=
-  Or.inr (by decide +kernel)
-example : (Race.run (f4Sched ++ Race.drain) (Race.init { f4Cfg with patched := true })).resT = .trashed := by
   decide +kernel
 
 end ArvVerif.C04
